@@ -25,6 +25,7 @@ type Plan struct {
 	Trackers  *TrackerPlan    `json:"trackers,omitempty"`
 	Policy    *PolicyPlan     `json:"policy,omitempty"`
 	Registry  *RegistryPlan   `json:"registry,omitempty"`
+	Pair      *PairPlan       `json:"pair,omitempty"`
 	Generic   json.RawMessage `json:"generic,omitempty"`
 }
 
@@ -75,6 +76,9 @@ func honestPeer(r *simrt.Rand, T gen.Layout, name string, np int) PeerSpec {
 	}
 	if r.Chance(0.3) {
 		b.UnchokeDelay = r.Dur(0, 3*time.Second)
+	}
+	if r.Chance(0.2) {
+		b.RedundantHaves = r.Range(1, 6)
 	}
 	return PeerSpec{Name: name, B: b, Mode: "dial", At: r.Dur(0, 2*time.Second), Redial: r.Dur(5*time.Second, 40*time.Second), Honest: true}
 }
@@ -182,8 +186,10 @@ func init() {
 			switch r.Intn(10) {
 			case 0:
 				b.CorruptP = r.Float() * 0.3
+				b.HangupAfterCorrupt = r.Chance(0.3)
 			case 1:
 				b.CorruptPieces = map[int]bool{r.Intn(np): true}
+				b.HangupAfterCorrupt = r.Chance(0.5)
 			case 2:
 				b.WrongLenP = 0.1
 			case 3:
@@ -261,6 +267,43 @@ func init() {
 		p.Transfer = tp
 	}, Run: func(env *Env, p *Plan) { RunTransfer(env, p.Transfer) }})
 
+	// C01 ban clause: corrupt peers that alone hold (disjoint sets of) pieces, hang up right
+	// after the corrupt piece or stay, and keep coming back from the same address.
+	Register(&Scenario{Name: "corrupt", Gen: func(r *simrt.Rand, tier string, p *Plan) {
+		tp := genTransferBase(r, tier)
+		tp.Webseeds = nil
+		np := numPiecesOf(tp.Layout)
+		tp.FaultsStop = r.Dur(30*time.Second, 90*time.Second)
+		n := r.Range(1, 3)
+		for i := 0; i < n; i++ {
+			b := refbt.Behavior{Fast: r.Chance(0.5), Ext: true, Announce: "auto", ServeDelay: [2]time.Duration{0, r.Dur(0, 30*time.Millisecond)}, MetaMode: "honest"}
+			have := refbt.NewBits(np)
+			for j := i; j < np; j += n {
+				have.Set(j)
+			}
+			b.Have = have
+			if r.Chance(0.5) {
+				b.CorruptP = 1
+			} else {
+				b.CorruptPieces = map[int]bool{}
+				for j := i; j < np; j += n {
+					if r.Chance(0.6) {
+						b.CorruptPieces[j] = true
+					}
+				}
+			}
+			b.HangupAfterCorrupt = r.Chance(0.5)
+			ps := PeerSpec{Name: fmt.Sprintf("c%d", i), B: b, Mode: "dial", At: r.Dur(0, 5*time.Second), Redial: r.Dur(500*time.Millisecond, 8*time.Second), Via: "manual"}
+			tp.Peers = append(tp.Peers, ps)
+		}
+		hp := honestPeer(r, tp.Layout, "h0", np)
+		hp.At = tp.FaultsStop - r.Dur(0, 3*time.Second)
+		tp.Peers = append(tp.Peers, hp)
+		tp.Bound = 2 * time.Hour
+		tp.Liveness = true
+		p.Transfer = tp
+	}, Run: func(env *Env, p *Plan) { RunTransfer(env, p.Transfer) }})
+
 	// C09: piece-picker stress: a swarm of partial, stalling, choking peers contending for few
 	// pieces, some piece held by nobody for a long time (no end game), tiny duplicate limits.
 	Register(&Scenario{Name: "picker", Gen: func(r *simrt.Rand, tier string, p *Plan) {
@@ -302,6 +345,9 @@ func init() {
 			}
 			if r.Chance(0.2) {
 				b.UnchokeDelay = r.Dur(0, 10*time.Second)
+			}
+			if r.Chance(0.4) {
+				b.RedundantHaves = r.Range(1, 6)
 			}
 			ps := PeerSpec{Name: fmt.Sprintf("s%d", i), B: b, Mode: simrt.Pick(r, []string{"dial", "listen"}), At: r.Dur(0, tp.FaultsStop/2), Via: "manual"}
 			if ps.Mode == "dial" && r.Chance(0.3) {
